@@ -10,11 +10,12 @@ import glob, json, os, shutil, subprocess, sys, tempfile, threading
 V = "/verif"
 EXTRA = {"C01": ["C02"], "C08": ["C03", "C18"], "C17": ["C18"], "C05": ["C03"], "C07": ["C13"], "C13": ["C07"], "C18": ["C01"]}
 args = sys.argv[1:]
-J = 4; tier = "quick"; extra = True
+J = 4; tier = "quick"; extra = True; write = True
 while args and args[0].startswith("-"):
     if args[0] == "-j": J = int(args[1]); args = args[2:]
     elif args[0] == "--tier": tier = args[1]; args = args[2:]
     elif args[0] == "--own-only": extra = False; args = args[1:]
+    elif args[0] == "--no-write": write = False; args = args[1:]      # e.g. runs with another VERIF_SEED: print only
     else: raise SystemExit("unknown option " + args[0])
 ids = args or sorted(os.path.basename(d) for d in glob.glob(V + "/seeded/*") if os.path.isdir(d))
 scratch = tempfile.mkdtemp(prefix="seedmx-")
@@ -50,7 +51,8 @@ def worker(k: int, mine: list[str]):
             meta["detected_by"] = [f"./check {p} {tier}" + (" (replay: failing input)" if not v["no_failing_input_found"] else " (no-failing-input-found)") for p, v in res.items() if v["exit"] == 1]
             meta["check_results"] = res
             with lock:
-                json.dump(meta, open(meta_p, "w"), indent=1)
+                if write:
+                    json.dump(meta, open(meta_p, "w"), indent=1)
                 print(sid, {p: (v["exit"], v["violations"], "nfif" if v["no_failing_input_found"] else "input") for p, v in res.items()}, flush=True)
     finally:
         subprocess.run(["git", "-C", "/repo", "worktree", "remove", "--force", wt])
